@@ -12,6 +12,13 @@ if "--budget" in args:
     i = args.index("--budget")
     budget = args[i + 1]
     del args[i:i + 2]
+WT = None
+if "--worktree" in args:
+    # apply the changes to a scratch worktree of /repo (put first on PYTHONPATH) instead of /repo itself
+    i = args.index("--worktree")
+    WT = args[i + 1]
+    del args[i:i + 2]
+REPO = WT or "/repo"
 ids = args or sorted(d for d in os.listdir(os.path.join(ROOT, "seeded")) if os.path.isdir(os.path.join(ROOT, "seeded", d)))
 
 
@@ -24,8 +31,8 @@ for sid in ids:
     mp = os.path.join(d, "meta.json")
     m = json.load(open(mp))
     prop = m["breaks_property"]
-    assert sh("git -C /repo status --short").stdout.strip() == "", "/repo not clean"
-    ap = sh(f"git -C /repo apply {d}/patch.diff")
+    assert sh(f"git -C {REPO} status --short").stdout.strip() == "", "/repo not clean"
+    ap = sh(f"git -C {REPO} apply {d}/patch.diff")
     if ap.returncode != 0:
         print(sid, "patch does not apply to /repo HEAD:", ap.stderr.strip()[:200])
         m.setdefault("checks", {})[prop] = {"exit": None, "how": "patch does not apply to /repo HEAD any more"}
@@ -33,15 +40,16 @@ for sid in ids:
         continue
     try:
         t0 = time.time()
-        c = sh(f"cd {ROOT} && ./check {prop} --seconds {budget} --no-evidence")
+        c = sh(f"cd {ROOT} && " + (f"PYTHONPATH={WT} VERIF_JOBS=8 " if WT else "") + f"./check {prop} --seconds {budget} --no-evidence")
     finally:
-        sh("git -C /repo checkout -- .")
+        sh(f"git -C {REPO} checkout -- .")
     lines = [l[:300] for l in c.stdout.splitlines() if l.startswith(("violation kind", "VIOLATION", "repaired defect"))]
     m.setdefault("checks", {})[prop] = {"exit": c.returncode, "first": lines[:3], "wall_s": round(time.time() - t0, 1),
-                                        "how": "git -C /repo apply; ./check; git -C /repo checkout -- . (tools/recheck_seeded.py)"}
+                                        "how": ("git -C /repo apply; ./check; git -C /repo checkout -- . (tools/recheck_seeded.py)" if not WT else
+                                                "scratch worktree with the change on PYTHONPATH, 8 workers (tools/recheck_seeded.py --worktree)")}
     m["caught_by"] = sorted(set(p for p, v in m["checks"].items() if v.get("exit") == 1))
     m["caught_by_target_check"] = c.returncode == 1
     json.dump(m, open(mp, "w"), indent=1)
     print(sid, prop, "exit", c.returncode, (lines[0][:140] if lines else ""), flush=True)
     sh(f"rm -f {ROOT}/replays/C*.json")
-assert sh("git -C /repo status --short").stdout.strip() == ""
+assert sh(f"git -C {REPO} status --short").stdout.strip() == ""
